@@ -4,7 +4,10 @@
    relating the behaviour of the generated code (Model/Enum.v, section
    Generated, run against the constants of the source: const_env p) to the
    declarative `declared T p`.  The work is in EnumCollect / EnumTables /
-   EnumBits; this file only instantiates. *)
+   EnumBits; this file only instantiates.
+
+   first_name D v (Model/Enum.v) is the first declared constant with value v: the
+   name that stands for the value when several constants share it (aliases). *)
 From Coq Require Import List ZArith Bool String Ascii Lia Sorted Permutation.
 From Shoot Require Import Model.Enum Proofs.EnumCollect Proofs.EnumBits Proofs.EnumTables.
 Import ListNotations.
@@ -43,65 +46,89 @@ Proof.
   intros p T fl Hgd. pose proof (proj1 (enum_guard_spec p T) Hgd) as Hg. split.
   - intros [g Hgen]. destruct (generate_inv p T fl g Hgen) as [k [Hk [Heq Hne]]]. subst g.
     split; [exists k; exact Hk|]. intros Hnil. apply Hne.
-    rewrite (names_eq p T k fl Hg Hk), Hnil. reflexivity.
+    apply (names_nil_iff p T k fl Hg Hk). exact Hnil.
   - intros [[k Hk] Hne]. unfold generate. rewrite Hk.
     destruct (g_names (make_str p T k fl)) eqn:Hn; [|eexists; reflexivity].
-    exfalso. apply Hne. rewrite (names_eq p T k fl Hg Hk) in Hn.
-    apply map_eq_nil in Hn.
-    destruct (declared T p) as [|x l]; [reflexivity|]. exfalso.
-    assert (Hin : In x (dsort (x :: l))) by (apply dsort_In; left; reflexivity).
-    rewrite Hn in Hin. exact Hin.
+    exfalso. apply Hne. apply (names_nil_iff p T k fl Hg Hk). exact Hn.
+Qed.
+
+(* the first declared name of a declared value exists and is a constant of that value *)
+Lemma P_first_name : forall p T fl g n v,
+  enum_guard p T = true -> generate p T fl = Some g -> In (n, v) (declared T p) ->
+  exists n1, first_name (declared T p) v = Some n1 /\ In (n1, v) (declared T p)
+             /\ ((forall n', In (n', v) (declared T p) -> n' = n) -> n1 = n).
+Proof.
+  intros p T fl g n v Hgd Hgen Hin. ctx Hgd Hgen k Hg Hk.
+  destruct (first_name_declared p T n v Hin) as [n1 [Hf Hin1]].
+  exists n1. split; [exact Hf|]. split; [exact Hin1|].
+  intros Huniq. apply Huniq. exact Hin1.
 Qed.
 
 Lemma P_constant_to_name_and_back : forall p T fl g n v,
   enum_guard p T = true -> generate p T fl = Some g -> In (n, v) (declared T p) ->
-  assoc_z v (t_string_map (const_env p) g) = Some (trim_prefix n T)
-  /\ str_of (const_env p) g v = trim_prefix n T
-  /\ assoc_s (trim_prefix n T) (t_value_map (const_env p) g) = Some v.
+  assoc_s (trim_prefix n T) (t_value_map (const_env p) g) = Some v
+  /\ exists n1, first_name (declared T p) v = Some n1
+       /\ assoc_z v (t_string_map (const_env p) g) = Some (trim_prefix n1 T)
+       /\ str_of (const_env p) g v = trim_prefix n1 T
+       /\ assoc_s (trim_prefix n1 T) (t_value_map (const_env p) g) = Some v.
 Proof.
-  intros p T fl g n v Hgd Hgen Hin. ctx Hgd Hgen k Hg Hk. repeat split.
-  - apply string_map_declared; assumption.
-  - apply str_of_declared; assumption.
+  intros p T fl g n v Hgd Hgen Hin. ctx Hgd Hgen k Hg Hk. split.
   - apply value_map_declared; assumption.
+  - destruct (string_map_declared p T k fl Hg Hk n v Hin) as [n1 [Hf [Hin1 Hsm]]].
+    exists n1. split; [exact Hf|]. split; [exact Hsm|]. split.
+    + apply str_of_first; assumption.
+    + apply value_map_declared; assumption.
+Qed.
+
+(* StringMap is exactly `value |-> trimmed first declared name` *)
+Lemma P_string_map_exact : forall p T fl g x,
+  enum_guard p T = true -> generate p T fl = Some g ->
+  assoc_z x (t_string_map (const_env p) g)
+  = option_map (fun n => trim_prefix n T) (first_name (declared T p) x).
+Proof.
+  intros p T fl g x Hgd Hgen. ctx Hgd Hgen k Hg Hk. apply string_map_total; assumption.
 Qed.
 
 Lemma P_maps_hold_only_declared : forall p T fl g,
   enum_guard p T = true -> generate p T fl = Some g ->
   (forall x s, assoc_z x (t_string_map (const_env p) g) = Some s ->
-               exists n, In (n, x) (declared T p) /\ s = trim_prefix n T)
+               exists n, In (n, x) (declared T p) /\ first_name (declared T p) x = Some n
+                         /\ s = trim_prefix n T)
   /\ (forall s v, assoc_s s (t_value_map (const_env p) g) = Some v ->
                   exists n, In (n, v) (declared T p) /\ s = trim_prefix n T)
-  /\ List.length (t_string_map (const_env p) g) = List.length (declared T p)
+  /\ List.length (t_string_map (const_env p) g) = List.length (t_values (const_env p) g)
   /\ List.length (t_value_map (const_env p) g) = List.length (declared T p).
 Proof.
-  intros p T fl g Hgd Hgen. ctx Hgd Hgen k Hg Hk. repeat split.
+  intros p T fl g Hgd Hgen. ctx Hgd Hgen k Hg Hk. split; [|split; [|split]].
   - intros x s. apply string_map_sound; assumption.
   - intros s v. apply value_map_sound; assumption.
-  - rewrite (string_map_eq p T k fl Hg Hk), map_length. apply Permutation_length, dsort_perm.
+  - unfold t_string_map, t_values. rewrite !map_length. reflexivity.
   - rewrite (value_map_eq p T k fl Hg Hk), map_length. apply Permutation_length, dsort_perm.
 Qed.
 
 Lemma P_values_strings_aligned : forall p T fl g,
   enum_guard p T = true -> generate p T fl = Some g ->
   List.length (t_values (const_env p) g) = List.length (t_strings g)
-  /\ List.length (t_values (const_env p) g) = List.length (declared T p)
   /\ forall i v s,
        nth_error (t_values (const_env p) g) i = Some v -> nth_error (t_strings g) i = Some s ->
-       exists n, In (n, v) (declared T p) /\ s = trim_prefix n T.
+       exists n, In (n, v) (declared T p) /\ first_name (declared T p) v = Some n
+                 /\ s = trim_prefix n T.
 Proof.
-  intros p T fl g Hgd Hgen. ctx Hgd Hgen k Hg Hk. repeat split.
+  intros p T fl g Hgd Hgen. ctx Hgd Hgen k Hg Hk. split.
   - apply values_strings_length; assumption.
-  - rewrite (values_eq p T k fl Hg Hk), map_length. apply Permutation_length, dsort_perm.
   - apply aligned_nth; assumption.
 Qed.
 
 Lemma P_values_ascending : forall p T fl g,
   enum_guard p T = true -> generate p T fl = Some g ->
   StronglySorted Z.lt (t_values (const_env p) g)
-  /\ Permutation (t_values (const_env p) g) (map snd (declared T p)).
+  /\ (forall x, In x (t_values (const_env p) g) <-> In x (map snd (declared T p)))
+  /\ (NoDup (map snd (declared T p)) ->
+      Permutation (t_values (const_env p) g) (map snd (declared T p))).
 Proof.
-  intros p T fl g Hgd Hgen. ctx Hgd Hgen k Hg Hk. split.
+  intros p T fl g Hgd Hgen. ctx Hgd Hgen k Hg Hk. split; [|split].
   - apply values_ascending; assumption.
+  - apply values_in; assumption.
   - apply values_perm; assumption.
 Qed.
 
@@ -178,7 +205,7 @@ Lemma P_parse_enum : forall p T fl g,
   /\ (forall s v, parse_enum (const_env p) g s = (v, None) ->
         exists n, In (n, v) (declared T p) /\ s = trim_prefix n T).
 Proof.
-  intros p T fl g Hgd Hgen. ctx Hgd Hgen k Hg Hk. repeat split.
+  intros p T fl g Hgd Hgen. ctx Hgd Hgen k Hg Hk. split; [|split].
   - intros n v Hin. apply parse_enum_hit; assumption.
   - intros s Hno. apply parse_enum_miss; assumption.
   - intros s v. apply parse_enum_ok_inv; assumption.
@@ -232,22 +259,28 @@ Qed.
 Lemma P_text_codec : forall p T fl g tgt,
   enum_guard p T = true -> generate p T fl = Some g ->
   (forall n v, In (n, v) (declared T p) ->
-     marshal_text (const_env p) g v = trim_prefix n T
-     /\ unmarshal_text (const_env p) g (marshal_text (const_env p) g v) tgt = (None, v))
+     (exists n1, first_name (declared T p) v = Some n1
+                 /\ marshal_text (const_env p) g v = trim_prefix n1 T)
+     /\ unmarshal_text (const_env p) g (marshal_text (const_env p) g v) tgt = (None, v)
+     /\ unmarshal_text (const_env p) g (trim_prefix n T) tgt = (None, v))
   /\ (forall s, ~ declared_name p T s ->
         unmarshal_text (const_env p) g s tgt = (Some ENotFound, tgt)).
 Proof.
   intros p T fl g tgt Hgd Hgen. ctx Hgd Hgen k Hg Hk. split.
-  - intros n v Hin. split.
-    + unfold marshal_text. apply str_of_declared; assumption.
+  - intros n v Hin. split; [|split].
+    + destruct (str_of_declared p T k fl Hg Hk n v Hin) as [n1 [Hf [_ Hs]]].
+      exists n1. split; [exact Hf | exact Hs].
     + apply (text_roundtrip p T k fl Hg Hk n v tgt Hin).
+    + apply (text_accepts p T k fl Hg Hk n v tgt Hin).
   - intros s Hno. apply text_rejects; assumption.
 Qed.
 
 Lemma P_sql_codec : forall p T fl g tgt,
   enum_guard p T = true -> generate p T fl = Some g ->
   (forall n v, In (n, v) (declared T p) ->
-     sql_value (const_env p) g v = SStr (trim_prefix n T)
+     (exists n1, first_name (declared T p) v = Some n1
+                 /\ sql_value (const_env p) g v = SStr (trim_prefix n1 T)
+                 /\ scan (const_env p) g (SBytes (trim_prefix n1 T)) tgt = (None, v))
      /\ scan (const_env p) g (SBytes (trim_prefix n T)) tgt = (None, v))
   /\ (forall s, ~ declared_name p T s ->
         scan (const_env p) g (SBytes s) tgt = (Some ENotFound, tgt))
@@ -255,7 +288,10 @@ Lemma P_sql_codec : forall p T fl g tgt,
 Proof.
   intros p T fl g tgt Hgd Hgen. ctx Hgd Hgen k Hg Hk. split; [|split].
   - intros n v Hin. split.
-    + unfold sql_value. rewrite (str_of_declared p T k fl Hg Hk n v Hin). reflexivity.
+    + destruct (str_of_declared p T k fl Hg Hk n v Hin) as [n1 [Hf [Hin1 Hs]]].
+      exists n1. split; [exact Hf|]. split.
+      * unfold sql_value. rewrite Hs. reflexivity.
+      * unfold scan. rewrite (parse_enum_hit p T k fl Hg Hk n1 v Hin1). reflexivity.
     + unfold scan. rewrite (parse_enum_hit p T k fl Hg Hk n v Hin). reflexivity.
   - intros s Hno. apply scan_rejects_name; assumption.
   - intros sv Hno. apply scan_rejects_type; assumption.
@@ -269,7 +305,8 @@ Section Json.
   Lemma P_json_codec : forall p T fl g tgt,
     enum_guard p T = true -> generate p T fl = Some g ->
     (forall n v, In (n, v) (declared T p) ->
-       marshal_json (const_env p) g jenc v = jenc (trim_prefix n T)
+       (exists n1, first_name (declared T p) v = Some n1
+                   /\ marshal_json (const_env p) g jenc v = jenc (trim_prefix n1 T))
        /\ unmarshal_json (const_env p) g jdec (marshal_json (const_env p) g jenc v) tgt = (None, v))
     /\ (forall data, jdec data = None ->
           unmarshal_json (const_env p) g jdec data tgt = (Some ENotString, tgt))
@@ -280,7 +317,8 @@ Section Json.
   Proof.
     intros p T fl g tgt Hgd Hgen. ctx Hgd Hgen k Hg Hk. split; [|split; [|split]].
     - intros n v Hin. split.
-      + unfold marshal_json. rewrite (str_of_declared p T k fl Hg Hk n v Hin). reflexivity.
+      + destruct (str_of_declared p T k fl Hg Hk n v Hin) as [n1 [Hf [_ Hs]]].
+        exists n1. split; [exact Hf|]. unfold marshal_json. rewrite Hs. reflexivity.
       + apply (json_roundtrip p T k fl Hg Hk jenc jdec jdec_jenc n v tgt Hin).
     - intros data Hd. apply json_rejects_nonstring; assumption.
     - intros data s Hd Hno. apply (json_rejects_name p T k fl Hg Hk jdec data s tgt Hd Hno).
@@ -290,21 +328,22 @@ End Json.
 
 (* ======================================================================= C14 *)
 
-Lemma name_of_declared : forall p T k fl n v,
-  guarded p T -> kind_of_type p T = Some k -> In (n, v) (declared T p) ->
-  name_of (const_env p) (make_str p T k fl) v = trim_prefix n T.
+Lemma name_of_first : forall p T k fl n1 v,
+  guarded p T -> kind_of_type p T = Some k -> first_name (declared T p) v = Some n1 ->
+  name_of (const_env p) (make_str p T k fl) v = trim_prefix n1 T.
 Proof.
-  intros p T k fl n v Hg Hk Hin. unfold name_of.
-  rewrite (string_map_declared p T k fl Hg Hk n v Hin). reflexivity.
+  intros p T k fl n1 v Hg Hk Hf. unfold name_of.
+  rewrite (string_map_total p T k fl Hg Hk v), Hf. reflexivity.
 Qed.
 
 (* String() of a union of declared single-bit flags whose union is not itself
-   declared: their names in ascending flag order, joined by ", " *)
+   declared: their names (the first declared name of each flag) in ascending
+   flag order, joined by ", " *)
 Lemma P_bit_string_union : forall p T fl g (names : list string) (S : list Z),
   enum_guard p T = true -> generate p T fl = Some g -> f_bit fl = true ->
   Forall (fun v => 0 <= v) (map snd (declared T p)) ->
   S <> [] -> StronglySorted Z.lt S -> Forall single_bit S ->
-  Forall2 (fun n s => In (n, s) (declared T p)) names S ->
+  Forall2 (fun n s => first_name (declared T p) s = Some n) names S ->
   ~ In (lor_all S) (map snd (declared T p)) ->
   str_of (const_env p) g (lor_all S) = join ", " (map (fun n => trim_prefix n T) names).
 Proof.
@@ -312,14 +351,15 @@ Proof.
   ctx Hgd Hgen k Hg Hk.
   assert (Hincl : incl S (t_values (const_env p) (make_str p T k fl))).
   { intros s Hs. apply (values_in p T k fl Hg Hk).
-    clear - Hnames Hs. induction Hnames as [|n s' names S' Hh Ht IH]; [destruct Hs|].
+    clear - Hnames Hs Hg Hk. induction Hnames as [|n s' names S' Hh Ht IH]; [destruct Hs|].
     destruct Hs as [Heq|Hs].
-    - subst s'. change s with (snd (n, s)). apply in_map. exact Hh.
+    - subst s'. change s with (snd (n, s)). apply in_map.
+      apply (first_name_sound p T). exact Hh.
     - apply IH. exact Hs. }
   rewrite (str_of_union (const_env p) (make_str p T k fl) S); try assumption.
   - f_equal. clear - Hnames Hg Hk.
     induction Hnames as [|n s names S' Hh Ht IH]; [reflexivity|].
-    simpl. rewrite IH. f_equal. apply name_of_declared; assumption.
+    simpl. rewrite IH. f_equal. apply name_of_first; assumption.
   - apply values_ascending; assumption.
   - apply Forall_forall. intros v Hv. apply (values_in p T k fl Hg Hk) in Hv.
     rewrite Forall_forall in Hnn. apply Hnn. exact Hv.
@@ -356,7 +396,7 @@ Lemma P_bit_cases : forall p T fl g x,
   In x (map snd (declared T p))
   \/ x < 0 \/ x = 0
   \/ (exists names S, S <> [] /\ StronglySorted Z.lt S /\ Forall single_bit S /\
-                      Forall2 (fun n s => In (n, s) (declared T p)) names S /\ x = lor_all S)
+                      Forall2 (fun n s => first_name (declared T p) s = Some n) names S /\ x = lor_all S)
   \/ (exists i, 0 <= i /\ Z.testbit x i = true /\ ~ In (2 ^ i) (map snd (declared T p))).
 Proof.
   intros p T fl g x Hgd Hgen Hbd. ctx Hgd Hgen k Hg Hk.
@@ -373,13 +413,14 @@ Proof.
   - left. apply (values_in p T k fl Hg Hk). exact Hin.
   - right. right. left. exact Hz.
   - right. right. right. left.
-    assert (Hex : exists names, Forall2 (fun n s => In (n, s) (declared T p)) names S).
+    assert (Hex : exists names, Forall2 (fun n s => first_name (declared T p) s = Some n) names S).
     { clear - Hincl Hg Hk. induction S as [|s S IH]; [exists []; constructor|].
       destruct IH as [names Hn]; [intros z Hz; apply Hincl; right; exact Hz|].
       assert (Hs : In s (map snd (declared T p))).
       { apply (values_in p T k fl Hg Hk). apply Hincl. left. reflexivity. }
       apply in_map_iff in Hs. destruct Hs as [[n v] [Hv Hin]]. cbn in Hv. subst v.
-      exists (n :: names). constructor; assumption. }
+      destruct (first_name_declared p T n s Hin) as [n1 [Hf _]].
+      exists (n1 :: names). constructor; assumption. }
     destruct Hex as [names Hn]. exists names, S. repeat split; assumption.
   - right. right. right. right. exists i. repeat split; try assumption.
     intros Hin. apply Hund. apply (values_in p T k fl Hg Hk). exact Hin.
